@@ -24,6 +24,8 @@ func C14(r *core.Report) {
 	c14VerifyHash(r)
 	c14FrameMap(r)
 	c14NoPooledAlias(r)
+	c14SingleReassemblyPath(r)
+	r.Floor("C14.R6", 6)
 	r.Floor("C14.R1", 4)
 	r.Floor("C14.R2", 2)
 	r.Floor("C14.R3", 4)
@@ -85,6 +87,24 @@ func c14Gates(r *core.Report) {
 			if be, isBin := core.Unparen(e.Ast.(ast.Expr)).(*ast.BinaryExpr); isBin && core.Mentions(info, be, totalVal) && strings.Contains(s, "len(") {
 				if ((be.Op == token.NEQ && !e.Truth) || (be.Op == token.EQL && e.Truth)) && leadsToErrorOnly(g, f, siblingEdge(e)) {
 					gate[e] = true
+				}
+				// `ok && len(frames) != total` false: either no total recorded or the counts agree
+				if be.Op == token.LAND && !e.Truth && leadsToErrorOnly(g, f, siblingEdge(e)) {
+					cj := conjuncts(be)
+					okOnly, hasCmp := true, false
+					for _, c := range cj {
+						if id, isId := core.Unparen(c).(*ast.Ident); isId && info.Uses[id] == totalOk {
+							continue
+						}
+						if cb, isB := core.Unparen(c).(*ast.BinaryExpr); isB && cb.Op == token.NEQ && core.Mentions(info, cb, totalVal) && strings.Contains(core.ExprStr(cb), "len(") {
+							hasCmp = true
+							continue
+						}
+						okOnly = false
+					}
+					if okOnly && hasCmp && !reassignedBetween(g, info, totalNode, e, totalOk) {
+						gate[e] = true
+					}
 				}
 			}
 		}
@@ -286,8 +306,42 @@ func c14Order(r *core.Report) {
 			if _, isSl := li.TypeOf(rs.X).Underlying().(*types.Slice); !isSl {
 				return true
 			}
+			// the frames slice: the one returned by getAllFramesFromDataFrame
+			fromFrames := false
+			if o := core.ObjOf(li, rs.X); o != nil {
+				if d := singleDef(lf, o); d != nil {
+					if c, isC := core.Unparen(d).(*ast.CallExpr); isC && strings.HasSuffix(core.CalleeName(li, c), "getAllFramesFromDataFrame") {
+						fromFrames = true
+					}
+				}
+			}
+			if !fromFrames {
+				return true
+			}
+			// each iteration adds the current element's bytes at the end of the payload: Buffer.Write(x.Bytes()) or
+			// data = append(data, x.Bytes()...), with x the range value or slice[i] for the range key
+			elem := func(e ast.Expr) bool {
+				c, isC := core.Unparen(e).(*ast.CallExpr)
+				if !isC {
+					return false
+				}
+				sel, isS := core.Unparen(c.Fun).(*ast.SelectorExpr)
+				if !isS || sel.Sel.Name != "Bytes" {
+					return false
+				}
+				if rs.Value != nil && core.ObjOf(li, sel.X) == core.ObjOf(li, rs.Value) {
+					return true
+				}
+				if ix, isIx := core.Unparen(sel.X).(*ast.IndexExpr); isIx && rs.Key != nil && core.ObjOf(li, ix.X) == core.ObjOf(li, rs.X) && core.ObjOf(li, ix.Index) == core.ObjOf(li, rs.Key) {
+					return true
+				}
+				return false
+			}
 			for _, c := range core.CallsIn(rs.Body, false) {
-				if strings.HasSuffix(core.CalleeName(li, c), "Buffer).Write") {
+				if strings.HasSuffix(core.CalleeName(li, c), "Buffer).Write") && len(c.Args) == 1 && elem(c.Args[0]) {
+					ok = true
+				}
+				if core.BuiltinName(li, c) == "append" && len(c.Args) == 2 && c.Ellipsis.IsValid() && elem(c.Args[1]) {
 					ok = true
 				}
 			}
@@ -561,4 +615,150 @@ func returnsAliasOfParam(p *core.Prog, callee *core.Func, idx int, depth int) bo
 		}
 	}
 	return false
+}
+
+// c14SingleReassemblyPath (C14.R6): on the serving side every payload (transaction, metadata, rewards) is obtained from
+// its first dataframe through tooling.LoadDataFromDataFrames - the one function whose count / checksum gates R1 decides -
+// or through a wrapper every byte result of which is such a call. A wrapper that answers some payloads from
+// frame.Bytes() directly skips the gates (and the `next` links) for them.
+func c14SingleReassemblyPath(r *core.Report) {
+	const rule = "C14.R6"
+	p := r.Prog
+	isFrame := func(t types.Type) bool {
+		if t == nil {
+			return false
+		}
+		if pt, ok := t.(*types.Pointer); ok {
+			t = pt.Elem()
+		}
+		n, ok := t.(*types.Named)
+		return ok && n.Obj().Name() == "DataFrame" && strings.HasSuffix(n.Obj().Pkg().Path(), "ipld/ipldbindcode")
+	}
+	var forwards func(f *core.Func, depth int) (bool, string)
+	forwards = func(f *core.Func, depth int) (bool, string) {
+		// every []byte result of f comes from LoadDataFromDataFrames (directly, via a local assigned once from it, or via
+		// another forwarding wrapper); error returns are ignored
+		if depth > 3 || f.Body == nil {
+			return false, "wrapper too deep or without body"
+		}
+		info := f.Pkg.TypesInfo
+		g := p.Graph(f)
+		fromLoad := func(e ast.Expr) bool {
+			e = core.Unparen(e)
+			if o := core.ObjOf(info, e); o != nil {
+				// every assignment to the local is a load
+				okAll, n := true, 0
+				ast.Inspect(f.Body, func(m ast.Node) bool {
+					as, isA := m.(*ast.AssignStmt)
+					if !isA || len(as.Rhs) != 1 {
+						return true
+					}
+					for _, l := range as.Lhs {
+						if core.ObjOf(info, l) == o {
+							n++
+							c, isC := core.Unparen(as.Rhs[0]).(*ast.CallExpr)
+							if !isC {
+								okAll = false
+								continue
+							}
+							nm := core.CalleeName(info, c)
+							if nm == "tooling.LoadDataFromDataFrames" {
+								continue
+							}
+							if fn := core.Callee(info, c); fn != nil {
+								if cal := p.ByObj[fn.Origin()]; cal != nil {
+									if ok, _ := forwards(cal, depth+1); ok {
+										continue
+									}
+								}
+							}
+							okAll = false
+						}
+					}
+					return true
+				})
+				return n > 0 && okAll
+			}
+			if c, isC := e.(*ast.CallExpr); isC {
+				if core.CalleeName(info, c) == "tooling.LoadDataFromDataFrames" {
+					return true
+				}
+				if fn := core.Callee(info, c); fn != nil {
+					if cal := p.ByObj[fn.Origin()]; cal != nil {
+						ok, _ := forwards(cal, depth+1)
+						return ok
+					}
+				}
+			}
+			return false
+		}
+		for _, rn := range g.Returns() {
+			if definitelyErrorReturn(g, f, rn) {
+				continue
+			}
+			res := returnResults(rn)
+			if len(res) == 1 {
+				if c, isC := core.Unparen(res[0]).(*ast.CallExpr); isC && fromLoad(c) {
+					continue
+				}
+			}
+			for _, e := range res {
+				if t := info.TypeOf(e); t != nil && isByteSlice(t) && !fromLoad(e) {
+					if id, isId := core.Unparen(e).(*ast.Ident); isId && id.Name == "nil" {
+						continue
+					}
+					return false, "returns " + core.ExprStr(e) + " at " + p.Rel(rn.Ast.Pos()) + ", which does not come from LoadDataFromDataFrames"
+				}
+			}
+		}
+		return true, ""
+	}
+	n := 0
+	for _, key := range []string{"main.parseTransactionAndMetaFromNode", "main.getTransactionAndMetaFromNode", "main.(*MultiEpoch).handleGetBlock", "main.(*MultiEpoch).GetBlock"} {
+		f := r.Anchor(rule, key)
+		if f == nil {
+			continue
+		}
+		info := f.Pkg.TypesInfo
+		for _, c := range core.CallsIn(f.Body, true) {
+			// calls that take a dataframe (or its address) as an argument
+			takes := false
+			for _, a := range c.Args {
+				if isFrame(info.TypeOf(a)) {
+					takes = true
+				}
+			}
+			// method calls on a dataframe that yield bytes
+			if sel, ok := core.Unparen(c.Fun).(*ast.SelectorExpr); ok && isFrame(info.TypeOf(sel.X)) && sel.Sel.Name == "Bytes" {
+				n++
+				r.Violation(rule, fmt.Sprintf("%s#frame-bytes-used-directly@%d", f.Key, n), pos(r, c), "the bytes of a dataframe are used directly: a payload continued in further frames is truncated and a recorded checksum is not verified")
+				continue
+			}
+			if !takes {
+				continue
+			}
+			n++
+			nm := core.CalleeName(info, c)
+			k := fmt.Sprintf("%s#payload-loaded-through:%s@%d", f.Key, nm[strings.LastIndex(nm, ".")+1:], n)
+			if nm == "tooling.LoadDataFromDataFrames" {
+				r.OK(rule, k, pos(r, c), "payload obtained through LoadDataFromDataFrames")
+				continue
+			}
+			fn := core.Callee(info, c)
+			var cal *core.Func
+			if fn != nil {
+				cal = p.ByObj[fn.Origin()]
+			}
+			if cal == nil {
+				r.Undecided(rule, k, pos(r, c), "a dataframe is handed to a function that could not be resolved")
+				continue
+			}
+			ok, why := forwards(cal, 0)
+			r.Check(ok, rule, k, pos(r, c), "payload obtained through a wrapper that always forwards LoadDataFromDataFrames",
+				"the payload is obtained through "+cal.Key+", which "+why+": for those payloads the frame-count and checksum gates (and the continuation frames) are skipped")
+		}
+	}
+	if n == 0 {
+		r.Undecided(rule, "main#payload-loads", "", "no payload load found on the serving side")
+	}
 }
